@@ -207,13 +207,15 @@ fn context_walks(prop: &str, em: &mut Em, rng: &mut Rng, thorough: bool) {
             if !used.is_empty() && r.chance(1, 5) { return r.pick(&used).clone(); }
             let o = if r.chance(1, 2) {
                 let mut got = None; for _ in 0..600 { let o = gen_op(r, cur); if all || walk_op_of(prop, &o) { got = Some(o); break; } } got.unwrap_or(Op::Bell)
-            } else { match r.below(40) {
+            } else { match r.below(46) {
                 0..=5 => Op::Sm(vec![5], true), 6..=10 => Op::Rm(vec![5], true), 11..=14 => Op::Reset,
                 15..=18 => Op::Resize(Some(1 + r.below(cur.lines as u64 + 2) as u32), Some(1 + r.below(cur.columns as u64 + 6) as u32)),
                 19 | 20 => Op::Sm(vec![3], true), 21 => Op::Rm(vec![3], true), 22 => Op::Sm(vec![*r.pick(&[6u32, 7, 4, 25, 20])], true), 23 => Op::Rm(vec![*r.pick(&[6u32, 7, 4, 25, 20])], true),
                 24 | 25 => Op::Margins(Some(1 + r.below(cur.lines as u64) as u32), Some(1 + r.below(cur.lines as u64) as u32)), 26 => Op::Margins(None, None), 27 => Op::Save, 28 => Op::Restore,
                 29 => Op::Sgr(gen_sgr(r)), 30 => Op::DefCharset(r.pick(&["0", "B", "U", "V"]).to_string(), r.pick(&["(", ")"]).to_string()), 31 => if r.chance(1, 2) { Op::ShiftOut } else { Op::ShiftIn },
-                32 => Op::SetTab, 33 => Op::Tab, 34 => Op::Display, 35 | 36 => Op::Cup(arg(r, cur.lines), arg(r, cur.columns)), 37 | 38 => Op::Draw(gen_text(r)), _ => Op::Sm(vec![4], false),
+                32 => Op::SetTab, 33 => Op::Tab, 34 => Op::Display, 35 | 36 => Op::Cup(arg(r, cur.lines), arg(r, cur.columns)), 37 | 38 => Op::Draw(gen_text(r)),
+                _ => match r.below(12) { 0 => Op::El(*r.pick(&[None, Some(1), Some(2)])), 1 => Op::Ed(*r.pick(&[None, Some(1), Some(2)])), 2 => Op::Ech(arg(r, cur.columns)), 3 => Op::Il(arg(r, cur.lines)), 4 => Op::Dl(arg(r, cur.lines)),
+                    5 => Op::Ich(arg(r, cur.columns)), 6 => Op::Dch(arg(r, cur.columns)), 7 => Op::Index, 8 => Op::RevIndex, 9 => Op::Align, 10 => Op::Cha(Some(9999)), _ => Op::Sm(vec![4], false) },
             } };
             if walk_op_of(prop, &o) && used.len() < 6 { used.push(o.clone()); }
             o
@@ -232,6 +234,7 @@ fn memo_triples(prop: &str, em: &mut Em, rng: &mut Rng, thorough: bool) {
         11..=13 => Op::Resize(Some(1 + r.below(cur.lines as u64 + 3) as u32), Some(1 + r.below(cur.columns as u64 + 30) as u32)),
         14 => Op::Sm(vec![3], true), 15 => Op::Rm(vec![3], true), 16 => Op::Restore, 17 => Op::Margins(Some(1 + r.below(cur.lines as u64) as u32), Some(1 + r.below(cur.lines as u64) as u32)),
         18 => Op::Sm(vec![*r.pick(&[6u32, 7, 4])], true), _ => Op::Rm(vec![*r.pick(&[6u32, 7, 4])], true) } };
+    let ctx = |r: &mut Rng, cur: &Screen| -> Op { if r.chance(1, 5) { match r.below(8) { 0 => Op::El(Some(1)), 1 => Op::Ed(Some(1)), 2 => Op::Draw(gen_text(r)), 3 => Op::Cha(Some(9999)), 4 => Op::Dch(arg(r, cur.columns)), 5 => Op::Ich(arg(r, cur.columns)), 6 => Op::Sgr(gen_sgr(r)), _ => Op::Index } } else { ctx(r, cur) } };
     for k in 0..n {
         let mut cur = if k % 4 == 0 { fork(rng.pick(&exo)) } else { let (c, l) = *rng.pick(&[(4u32, 3u32), (6, 4), (10, 3), (24, 2), (12, 5), (80, 3)]); Screen::new(c, l) };
         let pick_x = |r: &mut Rng, cur: &Screen| -> Op { let core = r.chance(2, 3); for _ in 0..900 { let o = gen_op(r, cur); if (core && op_of(prop, &o)) || (!core && walk_op_of(prop, &o)) { return o; } } Op::Bell };
@@ -436,6 +439,24 @@ fn c16(em: &mut Em, rng: &mut Rng, thorough: bool) {
             if rng.chance(1, 4) { let mut cur = fork(&s); for o in [Op::Sm(vec![3], true), Op::Draw("col".into()), Op::Rm(vec![3], true), Op::Rm(vec![3], true), Op::Sm(vec![3], true), Op::Sm(vec![3], true), Op::Rm(vec![3], true)] { em.probe(&cur, &o); if safe(|| o.apply(&mut cur)).is_none() { break; } } }
         }
     }
+    // anything an earlier operation may have left at or beyond the edge must not come into view when the screen grows:
+    // every edge-touching operation from the pending-wrap column (and from the last row) under a coloured rendition,
+    // then grow, and shrink-then-grow
+    for &(c, l) in [(3u32, 2u32), (5, 3), (10, 2)].iter() {
+        let edge_ops: Vec<Op> = vec![Op::El(Some(0)), Op::El(Some(1)), Op::El(Some(2)), Op::Ed(Some(0)), Op::Ed(Some(1)), Op::Ed(Some(2)), Op::Ech(Some(3)), Op::Ich(Some(1)), Op::Dch(Some(1)),
+            Op::Draw("\u{4e2d}".into()), Op::Draw("\u{301}".into()), Op::Tab, Op::SetTab, Op::Il(Some(1)), Op::Dl(Some(1)), Op::Index, Op::RevIndex, Op::Linefeed, Op::Align, Op::Save, Op::Cub(Some(1))];
+        for e in edge_ops.iter() { for fillk in [0u8, 1] { for lastrow in [false, true] {
+            let mut sp = base_spec(c, l); sp.fill = fillk;
+            let mut st = match build(&sp, rng) { Some(x) => x, None => continue };
+            let e2 = e.clone();
+            let r = safe(move || { st.select_graphic_rendition(&[44, 7, 1]); st.cursor_position(Some(if lastrow { l } else { 1 }), Some(c)); st.draw("x"); e2.apply(&mut st); st });
+            if let Some(st) = r {
+                em.probe(&st, &Op::Resize(None, Some(c + 2))); em.probe(&st, &Op::Resize(Some(l + 2), Some(c + 3)));
+                let mut cur = fork(&st); let o = Op::Resize(Some(l.max(2) - 1), Some(c.max(2) - 1)); em.probe(&cur, &o);
+                if safe(|| o.apply(&mut cur)).is_some() { em.probe(&cur, &Op::Resize(Some(l + 1), Some(c + 3))); }
+            }
+        } } }
+    }
 }
 
 // ------------------------------------------------------------------ C18 tabs
@@ -464,6 +485,19 @@ fn c18(em: &mut Em, rng: &mut Rng, thorough: bool) {
             for x in [0u32, 7, 8, 79, 80, 131] { let mut f = fork(&s); let _ = safe(|| f.cursor_to_column(Some(x + 1))); em.probe(&f, &Op::Tab); }
             let _ = safe(|| s.reset()); for x in [0u32, 7, 8, 79, 80, 131] { let mut f = fork(&s); let _ = safe(|| f.cursor_to_column(Some(x + 1))); em.probe(&f, &Op::Tab); } }
     } }
+    // HT before, between and after width changes, systematically (anything derived from the stops or the width and kept
+    // across a resize shows here): narrow then widen, widen then narrow, with extra stops set at various columns
+    for &(w0, w1, w2) in [(80u32, 10u32, 80u32), (24, 10, 30), (20, 8, 40), (140, 132, 140), (10, 30, 12), (16, 9, 17)].iter() {
+        for start in [0u32, 7, 8, 9] { for extra in [None, Some(12u32), Some(17)] { for tab_first in [false, true] {
+            let mut cur = Screen::new(w0, 2);
+            let mut seq: Vec<Op> = Vec::new();
+            if let Some(e) = extra { seq.push(Op::Cha(Some(e + 1))); seq.push(Op::SetTab); }
+            seq.push(Op::Cha(Some(start + 1))); if tab_first { seq.push(Op::Tab); }
+            seq.push(Op::Resize(None, Some(w1))); seq.push(Op::Cha(Some(start + 1))); seq.push(Op::Tab); seq.push(Op::Tab);
+            seq.push(Op::Resize(None, Some(w2))); seq.push(Op::Cha(Some(start + 1))); seq.push(Op::Tab); seq.push(Op::Tab); seq.push(Op::Tab);
+            for o in seq.iter() { if matches!(o, Op::Tab | Op::SetTab) { em.probe(&cur, o); } let oc = o.clone(); if safe(|| oc.apply(&mut cur)).is_none() { break; } }
+        } } }
+    }
     // DECCOLM between setting and using a stop
     let mut s = Screen::new(80, 2);
     for o in [Op::Sm(vec![3], true), Op::Cha(Some(120)), Op::SetTab, Op::Rm(vec![3], true), Op::Cha(Some(75)), Op::Tab, Op::Tab] { em.probe(&s, &o); let _ = safe(|| o.apply(&mut s)); }
@@ -1045,6 +1079,8 @@ fn c01(em: &mut Em, rng: &mut Rng, thorough: bool) {
         if k % 3 == 0 { let mb: &[u8] = *rng.pick(&[&[0xe3u8, 0x81, 0x82][..], &[0xc3, 0xa9][..], &[0xf0, 0x9f, 0x98, 0x80][..], &[0xe3, 0x81][..]]);
             let cut = 1 + rng.below(mb.len() as u64 - 1) as usize; chunks.push(mb[..cut].to_vec()); let at = chunks.len(); chunks.push(mb[cut..].to_vec()); chunks.push(b"ok\x1b[2J".to_vec());
             for _ in 0..(1 + rng.below(4)) { sels.push((if rng.chance(1, 2) { at } else { rng.below(chunks.len() as u64 + 1) as usize }, *rng.pick(&["@", "G", "8", "@", "G", "x"]))); } }
+        // empty chunks are legal input: at the start, between chunks, inside a multi-byte character, at the end
+        if k % 5 == 1 { for _ in 0..(1 + rng.below(3)) { let at = rng.below(chunks.len() as u64 + 1) as usize; chunks.insert(at, Vec::new()); for sl in sels.iter_mut() { if sl.0 >= at { sl.0 += 1; } } } }
         let ch2 = chunks.clone(); let tail2 = tail.clone(); let sels2 = sels.clone();
         em.arm(format!("{}x{} utf8={} byte chunks {:02x?} (select_other_charset before chunk: {:?}) then display() then {:02x?}", c, l, utf8, chunks, sels, tail));
         let r = safe(move || { let m = Arc::new(Mutex::new(Screen::new(c, l))); let mut bp = ByteParser::new(m.clone()); if !utf8 { bp.select_other_charset("@"); }
